@@ -57,6 +57,12 @@ def flat : {n m : Nat} → (o : Op n m) → Param α o → List α
   | _, _, .blockDiag k o, θ => flatN (flat o) k θ
   | _, _, .blockInterleaved k o, θ => flatN (flat o) k θ
   | _, _, .sumBatch k o, θ => flatN (flat o) k θ
+  | _, _, .transpose o, θ => flat o θ
+  | _, _, .root o, θ => flat o θ
+  | _, _, .mulRoot a b, θ => flat a θ.1 ++ flat b θ.2
+  | _, _, .kron a b, θ => flat a θ.1 ++ flat b θ.2
+  | _, _, .catRows a b, θ => flat a θ.1 ++ flat b θ.2
+  | _, _, .catCols a b, θ => flat a θ.1 ++ flat b θ.2
 
 /-- `representation_tree()(*args)`: rebuild the parameters of the operator from the flat list (returns the unread rest). -/
 def rebuild [Zero α] : {n m : Nat} → (o : Op n m) → List α → Param α o × List α
@@ -77,6 +83,12 @@ def rebuild [Zero α] : {n m : Nat} → (o : Op n m) → List α → Param α o 
   | _, _, .blockDiag k o, l => takeN (rebuild o) k l
   | _, _, .blockInterleaved k o, l => takeN (rebuild o) k l
   | _, _, .sumBatch k o, l => takeN (rebuild o) k l
+  | _, _, .transpose o, l => rebuild o l
+  | _, _, .root o, l => rebuild o l
+  | _, _, .mulRoot a b, l => let (p, l₁) := rebuild a l; let (q, l₂) := rebuild b l₁; ((p, q), l₂)
+  | _, _, .kron a b, l => let (p, l₁) := rebuild a l; let (q, l₂) := rebuild b l₁; ((p, q), l₂)
+  | _, _, .catRows a b, l => let (p, l₁) := rebuild a l; let (q, l₂) := rebuild b l₁; ((p, q), l₂)
+  | _, _, .catCols a b, l => let (p, l₁) := rebuild a l; let (q, l₂) := rebuild b l₁; ((p, q), l₂)
 
 /-! ### `Matmul.backward` with and without `settings.memory_efficient` -/
 
